@@ -20,6 +20,7 @@ import (
 	"time"
 
 	"github.com/attestantio/dirk/util/loggers"
+	"github.com/attestantio/dirk/util/verifhook"
 	badger "github.com/dgraph-io/badger/v2"
 	"github.com/dgraph-io/badger/v2/options"
 	"github.com/opentracing/opentracing-go"
@@ -133,6 +134,10 @@ func (s *Store) Fetch(ctx context.Context, key []byte) ([]byte, error) {
 	if len(key) == 0 {
 		return nil, errors.New("no key provided")
 	}
+	if err := verifhook.Point("store.Fetch.pre", key); err != nil {
+		return nil, err
+	}
+	defer verifhook.Done("store.Fetch.post", key)
 
 	var value []byte
 	err := s.db.View(func(txn *badger.Txn) error {
@@ -180,6 +185,10 @@ func (s *Store) BatchStore(ctx context.Context, keys [][]byte, values [][]byte) 
 			return errors.New("empty value provided")
 		}
 	}
+	if err := verifhook.Point("store.BatchStore.pre", keys...); err != nil {
+		return err
+	}
+	defer verifhook.Done("store.BatchStore.post", keys...)
 
 	wb := s.db.NewWriteBatch()
 	defer wb.Cancel()
@@ -205,6 +214,10 @@ func (s *Store) Store(ctx context.Context, key []byte, value []byte) error {
 	if len(value) == 0 {
 		return errors.New("no value provided")
 	}
+	if err := verifhook.Point("store.Store.pre", key); err != nil {
+		return err
+	}
+	defer verifhook.Done("store.Store.post", key)
 
 	return s.db.Update(func(txn *badger.Txn) error {
 		return txn.Set(key, value)
